@@ -627,3 +627,15 @@ def virtual_time_on():
         for m, t in old:
             m.time = t
     return undo
+
+
+def net_first_chooser(rng):
+    """Scheduler policy: deliver every wire message in flight before any further local processing.  No answer is
+    ever 'late' for the operation that asked for it, so a survey incorporates the answer of every server it
+    decided to query: the schedule most favourable to survey coverage (used for classification controls)."""
+    def choose(labels):
+        net = [i for i, l in enumerate(labels) if l not in ("ev", "now") and not l.startswith("thr")]
+        if net:
+            return net[rng.randrange(len(net))]
+        return 0
+    return choose
